@@ -170,6 +170,7 @@ func CreateEntryWithIO(ctx context.Context, ipfsInstance coreiface.CoreAPI, iden
 	}
 
 	data.SetV(2)
+	data.SetKey(identity.PublicKey)
 
 	if io, ok := io.(iface.IOPreSign); ok {
 		var err error
